@@ -33,9 +33,13 @@ func ParseCode(input string, opts ...parseCodeOpt) (tree parser.IExpressionConte
 	p.AddErrorListener(errListener)
 
 	tree = p.Expression()
+	// 表达式之后只允许换行/多行注释形成的 EOS(分号不算), 然后必须是 EOF
+	for stream.LA(1) == parser.GoLexerEOS && stream.LT(1).GetText() != ";" {
+		stream.Consume()
+	}
 	index := stream.Index()
 	last := stream.Get(index).GetTokenType()
-	if last != antlr.TokenEOF && last != parser.GoLexerEOS {
+	if last != antlr.TokenEOF {
 		err = errors.Wrapf(ErrInputTooLong, "at index=%v token=%v", index, last)
 		errListener.errors = append(errListener.errors, err)
 	}
